@@ -2,6 +2,7 @@ package web
 
 import (
 	"net/http"
+	"net/url"
 	"strings"
 
 	"github.com/gorilla/mux"
@@ -46,6 +47,12 @@ func headerMatch(req *http.Request, name string, value string) bool {
 // NewContext returns a Context for the given HTTP Request
 func NewContext(req *http.Request) (*Context, error) {
 	vars := mux.Vars(req)
+	// The router matches the encoded path; hand handlers the decoded values.
+	for k, v := range vars {
+		if u, err := url.PathUnescape(v); err == nil {
+			vars[k] = u
+		}
+	}
 	ctx := &Context{
 		Vars:       vars,
 		MsgHub:     msgHub,
